@@ -1,9 +1,9 @@
 package main
 
 import (
-	"strconv"
 	"math"
 	"math/big"
+	"strconv"
 
 	"gopkg.in/typ.v4"
 )
